@@ -25,8 +25,35 @@ fn mat(t: &Transform2) -> Matrix3<f64> {
 /// Dump the implementation's group tables with doubled translations as integers.
 pub fn tables(out: &str) {
     let mut obj = serde_json::Map::new();
-    for g in GROUPS.iter() {
-        let wg = group(g);
+    // a process that has already worked with groups of its own under the same names (another
+    // setting of p2mg, a one-operation table called p2gg, ...): the built-in tables are what they are
+    // whatever was built before
+    for (name, ops) in [
+        ("p2mg", vec!["x,y", "-x,-y", "x,-y+1/2", "-x,y+1/2"]),
+        ("p2gg", vec!["x,y"]),
+        ("p1", vec!["x,y", "-x,-y"]),
+        ("p1g1", vec!["x,y", "x+1/2,-y"]),
+    ]
+    .iter()
+    {
+        let user = packing::WallpaperGroup { name, family: packing::CrystalFamily::Monoclinic, wyckoff_str: ops.clone() };
+        let _ = WyckoffSite::new(&user);
+        let _ = PackedState::from_group(LineShape::polygon(4).unwrap(), &user).map(|s| s.score());
+        let _ = PotentialState::from_group(LJShape2::circle(), &user).map(|s| s.score());
+    }
+    // every group the library offers by name (the seven, and any added later)
+    let mut names: Vec<String> = GROUPS.iter().map(|s| s.to_string()).collect();
+    for v in packing::wallpaper::WallpaperGroups::variants().iter() {
+        if !names.iter().any(|n| n == v) {
+            names.push(v.to_string());
+        }
+    }
+    for g in names.iter() {
+        let g = &g.as_str();
+        let wg = match g.parse::<packing::wallpaper::WallpaperGroups>().ok().and_then(|x| packing::wallpaper::get_wallpaper_group(x).ok()) {
+            Some(w) => w,
+            None => continue,
+        };
         let fam = format!("{:?}", wg.family);
         let site = WyckoffSite::new(&wg);
         let mut ops = vec![];
@@ -700,6 +727,29 @@ pub fn lattice(input: &str, out: &str) {
         };
         t.checked += 1;
         t.nontrivial += 1;
+        // the same cell in very small and very large units: area and Cartesian map scale with it
+        for unit in [1e-9f64, 1e6].iter() {
+            if let Ok(cs) = serde_json::from_value::<Cell2>(json!({
+                "length": ax / u * unit, "ratio": (bx * bx + by * by).sqrt() / ax,
+                "angle": f64::atan2(by, bx), "family": gs(&e, "fam")})) {
+                let want = gi(&e, "area") as f64 / (u * u) * unit * unit;
+                let got = cs.area();
+                if !((got - want).abs() <= 1e-12 * want.abs()) {
+                    t.fail(&e, &format!("area of the cell in units of {:e} is {:e}, expected {:e}", unit, got, want), Value::Null);
+                    break;
+                }
+                let (x, y) = (gi(&e, "fx") as f64 / d, gi(&e, "fy") as f64 / d);
+                let p = cs.to_cartesian_point(Point2::new(x, y));
+                let cart = farr(&e, "cart");
+                let (ex, ey) = (cart[0] / (d * u) * unit, cart[1] / (d * u) * unit);
+                let blen = (bx * bx + by * by).sqrt() / u * unit;
+                let tl = 1e-12 * f64::max(*unit, 4. * ax / u * unit) + 4e-15 * blen * (4. + x.abs() + y.abs());
+                if (p.x - ex).abs() > tl || (p.y - ey).abs() > tl {
+                    t.fail(&e, &format!("to_cartesian_point in units of {:e} gives ({:e}, {:e}), expected ({:e}, {:e})", unit, p.x, p.y, ex, ey), Value::Null);
+                    break;
+                }
+            }
+        }
         let scale = d * u;
         // the cell angle reaches the code as an f64 (one ulp of pi/2 is 2e-16): a coordinate along B
         // carries that times |B|, and the extent of the images grows with the shell count
